@@ -50,6 +50,7 @@ int main(int argc, char **argv)
     std::string c = argv[1];
     if(c == "volume") return comp_volume();
     if(c == "wopn") return comp_wopn();
+    if(c == "bankmap") return comp_bankmap();
     fprintf(stderr, "unknown component %s\n", c.c_str());
     return 2;
 }
